@@ -121,6 +121,9 @@ func buildOverlay() (*overlaySet, error) {
 		}
 		target := filepath.Join(repoDir, dir)
 		for _, f := range files {
+			if excludedHarnessFile(filepath.Base(f)) {
+				continue
+			}
 			b, err := os.ReadFile(f)
 			if err != nil {
 				return nil, err
@@ -154,6 +157,56 @@ func buildOverlay() (*overlaySet, error) {
 		return nil, err
 	}
 	return ov, nil
+}
+
+func excludedHarnessFile(base string) bool {
+	for _, x := range strings.Split(os.Getenv("VERIF_EXCLUDE_FILES"), ",") {
+		if x != "" && x == base {
+			return true
+		}
+	}
+	return false
+}
+
+var harnessFileErr = regexp.MustCompile(`(zz_verif_c[0-9a-z_]*\.go):[0-9]+`)
+
+// excludeBrokenHarnessFiles compiles the tree with the harness overlay (go build,
+// tag verif). Harness files are in-package and call internal functions, so a
+// change of a signature in the tree under test can stop one of them from
+// compiling. Rather than leaving the whole property undecided, such files are
+// left out (VERIF_EXCLUDE_FILES, inherited by the workers) and named; their
+// harnesses are reported as not decided, the others run. Errors outside harness
+// files (the tree itself does not compile) are left for the loader to report.
+func excludeBrokenHarnessFiles() []string {
+	var dropped []string
+	for round := 0; round < 4; round++ {
+		ov, err := buildOverlay()
+		if err != nil {
+			return dropped
+		}
+		cmd := exec.Command("go", "build", "-tags", "verif", "-overlay", filepath.Join(ov.tmp, "overlay.json"), "./...")
+		cmd.Dir = repoDir
+		cmd.Env = append(os.Environ(), "GOFLAGS=-mod=mod", "GOPROXY=off", "GOSUMDB=off", "GOTOOLCHAIN=local")
+		out, berr := cmd.CombinedOutput()
+		ov.cleanup()
+		if berr == nil {
+			return dropped
+		}
+		found := map[string]bool{}
+		for _, m := range harnessFileErr.FindAllStringSubmatch(string(out), -1) {
+			found[m[1]] = true
+		}
+		if len(found) == 0 {
+			return dropped
+		}
+		cur := os.Getenv("VERIF_EXCLUDE_FILES")
+		for f := range found {
+			dropped = append(dropped, f)
+			cur += "," + f
+		}
+		os.Setenv("VERIF_EXCLUDE_FILES", cur)
+	}
+	return dropped
 }
 
 func (ov *overlaySet) cleanup() {
@@ -902,6 +955,11 @@ func checkMain(prop, tier string) int {
 	if !ok {
 		fmt.Fprintln(os.Stderr, "no such property in checks.json:", prop)
 		return 2
+	}
+	droppedFiles := excludeBrokenHarnessFiles()
+	sort.Strings(droppedFiles)
+	for _, f := range droppedFiles {
+		fmt.Printf("INCONCLUSIVE property=%s harness file %s does not compile against this tree (an internal signature it uses has changed): its harnesses are not decided\n", prop, f)
 	}
 	ov, err := buildOverlay()
 	if err != nil {
